@@ -186,3 +186,92 @@ def v_dfp_swell(c):
     dt = c.real("dt", 1, 86400)
     dist = c.real("distance", 1e3, 1e8)
     c.ensure_eq("dt_g_over_4_pi_distance", c.call(dt, dist), dt * m.g / (4 * m.pi * dist))
+
+
+# ---------------------------------------------------------------------------------------
+# identifier bookkeeping of np_track_partitions, symbolically for small fixed shapes
+
+
+def stub_match(fp, dpm, dfp_sea_max, dfp_swell_max, ddpm_sea_max, ddpm_swell_max):
+    """callee contract of match_consecutive_partitions as seen by np_track_partitions:
+    m[i] = -999 iff current partition i is empty, otherwise -888 or the index of a non-empty
+    previous partition, no previous partition twice (proved in v_match for 2 partitions)"""
+    import z3
+    from engine.pyse.core import CTX, fresh_name
+
+    n = A.conc(fp.shape_[0])
+    ms = []
+    for i in range(n):
+        mi = Sym(z3.Int(fresh_name("match")))
+        cur_nan = fp.get((Sym(i), Sym(1))).nan
+        opts = [mi.t == -888]
+        for j in range(n):
+            opts.append(z3.And(mi.t == j, z3.Not(core_bool(fp.get((Sym(j), Sym(0))).nan))))
+        CTX.assume(z3.If(core_bool(cur_nan), mi.t == -999, z3.Or(*opts)))
+        for prev in ms:
+            CTX.assume(z3.Implies(z3.And(mi.t >= 0, prev.t >= 0), mi.t != prev.t))
+        ms.append(mi)
+    return A.Arr.from_list(ms, "i")
+
+
+def core_bool(b):
+    from engine.pyse.core import to_z3_bool
+
+    return to_z3_bool(b)
+
+
+from engine.pyse import api as _api  # noqa: E402
+
+_api.CONTRACTS[TR + "match_consecutive_partitions"].stub = stub_match
+
+
+@contract(TR + "np_track_partitions", props=["C19"], name="ids_small_shapes",
+          scenarios=[{"P": 2, "T": 2}, {"P": 2, "T": 3}], uses=[TR + "match_consecutive_partitions"])
+def v_track_ids(c, P, T):
+    """BOUNDED IN SHAPE, all values: identifiers are -999 exactly on empty partitions, unique
+    within a step, and the reported count equals the number of identifiers issued (fresh ones are
+    issued consecutively)"""
+    import numpy as np
+
+    m = c.m
+    times = np.datetime64("2020-01-01T00", "s") + np.arange(T) * np.timedelta64(3600, "s")
+    if m.symbolic:
+        fpA = c.array("fp", (Sym(P), Sym(T)), positive=True, nan=True)
+        dpA = c.array("dpm", (Sym(P), Sym(T)))
+        wspd = c.array("wspd", (Sym(T),), positive=True)
+        isnan = lambda p, t: m.isnan(fpA.get((Sym(p), Sym(t))))
+        # times stay concrete numpy datetimes: bind a small wrapper exposing shape/size/indexing
+        ids, nids = c.call(_Times(times), fpA, dpA, wspd)
+        get = lambda p, t: ids.get((Sym(p), Sym(t)))
+    else:
+        r = np.random.default_rng(c.rng.randint(0, 2**31))
+        fpA = r.choice([0.06, 0.08, 0.1], (P, T)) + r.uniform(-0.002, 0.002, (P, T))
+        dpA = r.choice([10.0, 200.0], (P, T)) + r.uniform(-5, 5, (P, T))
+        hole = r.uniform(0, 1, (P, T)) < 0.3
+        fpA[hole] = np.nan
+        wspd = r.uniform(3, 20, T)
+        isnan = lambda p, t: bool(np.isnan(fpA[p, t]))
+        ids, nids = c.call(times, fpA, dpA, wspd)
+        get = lambda p, t: int(ids[p, t])
+    for t in range(T):
+        for p in range(P):
+            c.ensure("missing_marker_iff_empty_partition", (get(p, t) == -999) == isnan(p, t) if m.symbolic
+                     else ((get(p, t) == -999) == isnan(p, t)))
+            c.ensure("identifiers_below_the_reported_count", c.implies(get(p, t) != -999, m.and_(get(p, t) >= 0, get(p, t) < nids))
+                     if m.symbolic else (get(p, t) == -999 or 0 <= get(p, t) < nids))
+            for q in range(p):
+                c.ensure("no_identifier_used_twice_in_a_step",
+                         c.implies(m.and_(get(p, t) != -999, get(q, t) != -999), get(p, t) != get(q, t)) if m.symbolic
+                         else (get(p, t) == -999 or get(q, t) == -999 or get(p, t) != get(q, t)))
+
+
+class _Times:
+    """concrete timestamps handed to the real function under symbolic execution"""
+
+    def __init__(self, t):
+        self.t = t
+        self.shape = t.shape
+        self.size = t.size
+
+    def __getitem__(self, k):
+        return self.t[k]
